@@ -7,20 +7,34 @@
 // constructor (default, with a column-count hint, batch constructor on a simplicial prefix) and a history of insertions of
 // admissible universe cells at the end of the filtration interleaved with remove_last (when the options offer it), so that
 // what is re-inserted after a removal is in general a different cell.
-//   * RU and chain flavours: full observation after EVERY step.
+//   * RU and chain flavours: full observation after EVERY step in half of the cases, after every k-th step (k in 2..8, and
+//     at the end) in the others, so that lazily maintained column state survives from one operation to the next.
 //   * boundary-only flavour (call discipline of DESIGN.md): before the first get_current_barcode() the stored columns are
 //     compared with the inserted boundaries after every step; then the barcode is requested once, and remove_last x k
 //     follows with a full observation after each; no insertion after the first barcode.
+// Input classes drawn per case on top of that (each one named in the signature when it is active): coefficients handed over
+// unreduced (c + k p, k in {0..3, 1000}: the documentation says values are stored after taking them modulo p), coefficients
+// spread over Z_p by rescaling every universe cell with a random unit, histories that shrink to the EMPTY matrix, call
+// remove_last once more there (a no-op) and grow again, identifiers with heavy-tailed gaps / a large first identifier /
+// implicit for a prefix (or a batch constructor) and explicit with gaps afterwards, all dimensions shifted by a constant,
+// boundaries given as std::list / std::deque / std::set, the barcode of a never-filled boundary-only matrix, matrices
+// without stored pairing (identities only), and - in the few-case big-prime configurations - primes up to and above 2^16.
 // Oracle: oracle/zp_reduce.h on the model's current filtration (positions), plus the definitions of the identities
 // restated below on sparse maps.  Nothing of GUDHI's reduction is reused.
 #ifndef VERIF_C05_CORE_H_
 #define VERIF_C05_CORE_H_
 
+#include <csignal>
+#include <cstdlib>
 #include <map>
 #include <set>
 #include <stdexcept>
 #include <string>
 #include <vector>
+
+#include <fcntl.h>
+#include <sys/wait.h>
+#include <unistd.h>
 
 #include "common/vh.h"
 #include "oracle/zp_reduce.h"
@@ -87,29 +101,55 @@ struct Run {
   std::vector<char> present;
   std::vector<MC> cells;              // the model: current filtration
   std::map<unsigned, int> pos_of_id;  // live identifiers
-  int id_style = 0;                   // 0 implicit consecutive, 1 explicit consecutive, 2 gaps
+  int id_style = 0;                   // 0 implicit consecutive, 1 explicit consecutive, 2 gaps, 3 heavy-tailed gaps (<= ~20000),
+                                      // 4 large first identifier, 5 implicit for a prefix (or batch constructor) then explicit with gaps
+  bool explicit_now = false;          // style 5: the switch to explicit identifiers has happened
+  int switch_at = 0;                  // style 5: number of cells at which the switch happens
+  unsigned first_id = 0;              // style 4
+  const int mode;                     // MODE_NORMAL / MODE_BIG_PRIMES
+  long p_forced = 0;                  // MODE_BIG_PRIMES: chosen by run_history (it sizes the CPU guard with it)
+  bool unreduced = false;             // coefficients are handed over as c + k p
+  bool spread = false;                // universe cell u is rescaled by the unit lam[u]: coefficients spread over Z_p
+  std::vector<long> lam, lam_inv;
+  int obs_every = 1, since_obs = 0;   // RU / chain: observe after every obs_every-th step
+  bool allow_empty = false;           // the history may shrink to zero columns (and call remove_last there)
+  bool emptied = false;               // it did
+  int dim_shift = 0;                  // added to every dimension
+  bool used_other_range = false;      // a boundary was given as list / deque / set
   bool reduced = false;               // boundary-only: the barcode was requested
   bool did_remove = false, reinserted = false, shape_reported = false;
   unsigned removes = 0, reinserts = 0;
   std::string last_op = "ctor";
   const char* cur_call = "";
   // coverage of the case
-  int best_finite = 0, best_chain = 0, best_cells = 0;
+  int best_finite = 0, best_chain = 0, best_cells = 0, best_cells_after_emptied = 0;
   bool any_addition = false;
 
-  Run(vh::Case& c_, const std::string& cfg_, const Traits& t, MatrixIO& io_)
+  Run(vh::Case& c_, const std::string& cfg_, const Traits& t, MatrixIO& io_, int mode_ = MODE_NORMAL)
       : T(t), io(io_), FL(t.fl), IDX(t.idx), Z2(t.z2), RA(t.ra), RR(t.rr), RC(t.rc), HAS_MAXDIM(t.has_maxdim),
-        HAS_RU_FACTOR(t.fl == F_RU && t.idx != I_ID), c(c_), r(c_.rng), cfg(cfg_) {}
+        HAS_RU_FACTOR(t.fl == F_RU && t.idx != I_ID), c(c_), r(c_.rng), cfg(cfg_), mode(mode_) {}
 
   // ------------------------------------------------------------------------------------------------ helpers
   std::string sig(const std::string& extra = "") const {
     std::string s = std::string("fl=") + (FL == F_BND ? "boundary" : FL == F_RU ? "ru" : "chain") +
                     ",idx=" + (IDX == I_CONT ? "container" : IDX == I_POS ? "position" : "identifier") +
-                    ",field=" + (Z2 ? "z2" : "zp") + ",ids=" + (id_style == 2 ? "gaps" : "consecutive") +
+                    ",field=" + (Z2 ? "z2" : "zp") + ",ids=" + id_style_name() +
                     ",after=" + last_op + (reinserted ? ",reinserted" : "");
+    // the input classes beyond the basic protocol, named only when active
+    if (emptied) s += ",emptied";
+    if (unreduced) s += ",coefs=unreduced";
+    if (p > 65536) s += ",prime=above_65536";
+    if (!T.pairings) s += ",pairings=off";
+    // (sparse observation, shifted dimensions and non-vector boundary ranges are in the first line of the history / the
+    //  insert lines, not in the signature: they would only multiply the signatures of one cause)
     if (!extra.empty()) s += "," + extra;
     return s;
   }
+  const char* id_style_name() const {
+    static const char* const nm[6] = {"consecutive", "consecutive", "gaps", "heavy_gaps", "large_first", "implicit_then_explicit"};
+    return nm[id_style];
+  }
+  bool implicit_ids_now() const { return id_style == 0 || (id_style == 5 && !explicit_now); }
   // the index under which the public interface addresses the column of the cell at filtration position pos.
   // Chain matrix with container indexing: the MatIdx is whatever get_column_with_pivot says (it differs from the
   // position once columns were removed in a matrix with vine updates); that it maps back is checked in observe_chain.
@@ -154,18 +194,28 @@ struct Run {
   MC make_cell(int u, const std::map<int, unsigned>& id_of_u) {
     MC mc;
     mc.u = u;
-    mc.dim = U.cells[u].dim;
+    mc.dim = U.cells[u].dim + dim_shift;
     unsigned prev = cells.empty() ? 0 : cells.back().id + 1;
-    if (id_style == 2) {
-      static const unsigned gaps[8] = {0, 0, 0, 1, 1, 2, 3, 7};
-      mc.id = prev + gaps[r.below(8)];
-    } else {
-      mc.id = (unsigned)cells.size();
-    }
+    static const unsigned gaps[8] = {0, 0, 0, 1, 1, 2, 3, 7};
+    auto heavy = [&]() -> unsigned {  // heavy-tailed gap: 0 one time in three, else uniform below 2^k, k uniform in 0..14
+      unsigned g = r.chance(1, 3) ? 0u : (unsigned)r.below((uint64_t)1 << r.below(15));
+      return prev + g > 20000u ? 0u : g;
+    };
+    if (id_style == 2) mc.id = prev + gaps[r.below(8)];
+    else if (id_style == 3) mc.id = prev + heavy();
+    else if (id_style == 4) mc.id = (cells.empty() ? first_id : prev) + (r.chance(1, 4) ? (unsigned)r.below(3) : 0u);
+    else if (id_style == 5 && explicit_now) mc.id = prev + (r.chance(1, 3) ? heavy() : gaps[r.below(8)]);
+    else mc.id = (unsigned)cells.size();
     for (auto& f : U.cells[u].bd) {
       long v = f.second % p; if (v < 0) v += p;
       if (v == 0) { c.count("cell.coef_vanishes_mod_p"); continue; }
+      if (spread) v = v * lam[u] % p * lam_inv[f.first] % p;  // boundary in the rescaled basis lam[u] e_u: still d.d = 0
       mc.bd[id_of_u.at(f.first)] = v;
+      long k = 0;
+      if (unreduced) { static const long ks[6] = {0, 1, 2, 3, 1000, 1}; k = ks[r.below(6)]; }
+      mc.in[id_of_u.at(f.first)] = v + k * p;  // < 2^32 for every prime used (p <= 131071)
+      if (k > 0) c.count("cell.coef_unreduced");
+      if (k == 1000) c.count("cell.coef_plus_1000p");
     }
     return mc;
   }
@@ -185,7 +235,8 @@ struct Run {
     cells.pop_back();
   }
   std::string describe(const MC& mc) const {
-    return U.cells[mc.u].name + " id=" + std::to_string(mc.id) + " dim=" + std::to_string(mc.dim) + " bd=" + show(mc.bd);
+    return U.cells[mc.u].name + " id=" + std::to_string(mc.id) + " dim=" + std::to_string(mc.dim) + " bd=" + show(mc.bd) +
+           (mc.in != mc.bd ? " given as " + show(mc.in) : std::string());
   }
 
   // ------------------------------------------------------------------------------------------------ operations on both
@@ -195,18 +246,27 @@ struct Run {
     // mild preference for higher-dimensional cells so that deaths happen early
     int u = a[r.below(a.size())];
     if (r.chance(1, 2)) { int u2 = a[r.below(a.size())]; if (U.cells[u2].dim > U.cells[u].dim) u = u2; }
+    if (id_style == 5 && !explicit_now && (int)cells.size() >= switch_at) { explicit_now = true; c.count("ids.switch_to_explicit"); }
     MC mc = make_cell(u, ids_by_universe());
     const bool deducible = mc.dim == (mc.bd.empty() ? 0 : (int)mc.bd.size() - 1);
     const bool omit_dim = deducible && r.chance(1, 3);
-    c.log(std::string("insert ") + describe(mc) + (id_style == 0 ? " [implicit id]" : " [explicit id]") + (omit_dim ? " [dim omitted]" : ""));
+    const bool implicit = implicit_ids_now();
+    static const char* const rk_name[4] = {"vector", "list", "deque", "set"};
+    const int rk = T.ranges ? (int)r.below(4) : R_VECTOR;
+    if (rk != R_VECTOR) used_other_range = true;
+    c.count(std::string("range.") + rk_name[rk]);
+    c.log(std::string("insert ") + describe(mc) + (implicit ? " [implicit id]" : " [explicit id]") + (omit_dim ? " [dim omitted]" : "") +
+          (rk != R_VECTOR ? std::string(" [as std::") + rk_name[rk] + "]" : std::string()));
     if (did_remove) { reinserted = true; ++reinserts; c.count("op.insert.after_remove_last"); }
+    if (emptied) c.count("op.insert.after_emptied");
+    if (mc.id >= 1000) c.count("ids.id_ge_1000");
     if (mc.dim > 0 && mc.bd.empty()) c.count("cell.empty_boundary_positive_dim");
     if (pos_of_id.empty() && mc.id != 0) c.count("ids.first_id_nonzero");
     last_op = "insert";
     c.count("op.insert");
     cur_call = "insert_boundary";
     bool returned = false;
-    size_t nret = io.insert(mc, id_style == 0, omit_dim, returned);
+    size_t nret = io.insert(mc, implicit, omit_dim, rk, returned);
     model_push(mc);
     if (returned) inserted_return = nret, have_return = true;
     return true;
@@ -224,6 +284,71 @@ struct Run {
     io.remove_last();
     model_pop();
     have_return = false;
+    if (cells.empty()) { emptied = true; c.count("empty.reached"); }
+  }
+  // remove_last on a matrix without columns: the matrices return early there ("// empty matrix"), the model does nothing
+  void op_remove_last_on_empty() {
+    c.log("remove_last  (the matrix is empty: expected to do nothing)");
+    last_op = "remove_last_on_empty";
+    c.count("op.remove_last.on_empty");
+    did_remove = true;
+    cur_call = "remove_last";
+    io.remove_last();
+    have_return = false;
+  }
+  // ... and the matrix must still be usable afterwards.  What a corrupted column counter does next is a crash (an index out of
+  // range, an allocation of 2^32 entries), whose sanitizer signature would not say what led to it; so the next step - one
+  // insertion where the call discipline allows one, then a full observation - is first tried in a forked copy of the process
+  // (output and stderr to /dev/null, 15 s alarm).  A copy that dies or observes something wrong is reported here, under a
+  // signature that names the situation; otherwise the history goes on in this process as if nothing had been tried.
+  bool remove_last_on_empty_and_probe() {
+    op_remove_last_on_empty();
+    if (getenv("C05_NO_PROBE")) return true;  // for replays: let this process run into whatever the copy died of
+    c.count("probe.after_remove_last_on_empty");
+    // A defect of the library fails every time; a copy that is lost to the machine (killed, or stuck on a lock another
+    // thread of the sanitizer run-time held at the time of the fork: the alarm ends it) does not: three identical failures
+    // are required before anything is reported.
+    int st_first = 0;
+    for (int attempt = 0; attempt < 3; ++attempt) {
+      int st = probe_once();
+      if (st == -1) { c.count("probe.fork_failed"); return true; }
+      if (WIFEXITED(st) && WEXITSTATUS(st) == 0) { if (attempt > 0) c.count("probe.ok_after_retry"); return true; }
+      const bool lost = WIFSIGNALED(st) && (WTERMSIG(st) == SIGALRM || WTERMSIG(st) == SIGKILL);
+      if (lost || (attempt > 0 && st != st_first)) { c.count("probe.inconclusive"); return true; }
+      st_first = st;
+    }
+    const int st = st_first;
+    const bool died = !WIFEXITED(st);
+    const char* kind = died ? "probe=died" : WEXITSTATUS(st) == 2 ? "probe=wrong_observation" : "probe=exception";
+    c.violation("empty.remove_last_is_noop", sig(kind),
+                std::string("after remove_last on the empty matrix, ") + ((FL == F_BND && reduced) ? "a full observation" : "one insertion followed by an observation") +
+                    " in a forked copy of the process " +
+                    (died ? "died (signal " + std::to_string(WTERMSIG(st)) + ")" : WEXITSTATUS(st) == 2 ? "found a mismatch" : "threw an exception") +
+                    ", three times out of three; replay the case with C05_NO_PROBE=1 in the environment to see where");
+    return false;
+  }
+  // wait status of one forked copy that does the next step, -1 when fork is not possible
+  int probe_once() {
+    fflush(nullptr);
+    pid_t pid = fork();
+    if (pid < 0) return -1;
+    if (pid == 0) {
+      int dn = open("/dev/null", O_WRONLY);
+      if (dn >= 0) { dup2(dn, 2); vh::G().out_fd = dn; }
+      vh::G().verbose = false;
+      alarm(15);
+      int rc = 0;
+      try {
+        const bool may_insert = !(FL == F_BND && reduced);
+        if (may_insert) op_insert();
+        bool ok = (FL == F_BND && !reduced) ? observe_bnd_raw() : observe_full();
+        rc = ok ? 0 : 2;
+      } catch (...) { rc = 3; }
+      _exit(rc);
+    }
+    int st = 0;
+    while (waitpid(pid, &st, 0) < 0) {}
+    return st;
   }
 
   // ------------------------------------------------------------------------------------------------ observation
@@ -255,17 +380,20 @@ struct Run {
 
   // barcode as sorted multiset of (dim, birth, death) in positions, compared with the independent reduction
   bool observe_barcode(const oracle::Reduction& red) {
-    cur_call = "get_current_barcode";
-    std::vector<oracle::Bar> got;
-    io.barcode(got);
-    std::sort(got.begin(), got.end());
-    c.count("obs.barcode");
     int fin = 0;
     for (auto& b : red.bars) if (b.death >= 0) ++fin;
     c.count("bars.finite", fin);
     c.count("bars.essential", red.bars.size() - fin);
     best_finite = std::max(best_finite, fin);
     best_cells = std::max(best_cells, (int)cells.size());
+    if (emptied) best_cells_after_emptied = std::max(best_cells_after_emptied, (int)cells.size());
+    if (!T.pairings) { c.count("obs.no_stored_barcode"); return true; }  // has_column_pairings off: identities only
+    cur_call = "get_current_barcode";
+    std::vector<oracle::Bar> got;
+    io.barcode(got);
+    std::sort(got.begin(), got.end());
+    c.count("obs.barcode");
+    if (cells.empty()) c.count("obs.barcode.of_empty_matrix");
     if (!c.expect(got == red.bars, "barcode.equal", sig(),
                   "got " + oracle::show(got) + " want " + oracle::show(red.bars) + " (n=" + std::to_string(cells.size()) + ", p=" + std::to_string(p) + ")"))
       return false;
@@ -673,7 +801,9 @@ struct Run {
     int h = hints[r.below(5)];
     unsigned hint = h >= 0 ? (unsigned)h : (h == -1 ? (unsigned)planned : h == -2 ? (unsigned)planned / 2 : (unsigned)planned + 10);
     cur_call = "constructor";
-    if (id_style == 0 && k < 3) {
+    // (with shifted dimensions no cell qualifies for the batch constructor: it is then only asked for now and then, and
+    //  constructs a matrix from zero columns)
+    if ((id_style == 0 || id_style == 5) && k < 3 && (dim_shift == 0 || r.chance(1, 4))) {
       // batch constructor on a prefix of cells whose dimension is what the constructor deduces from the boundary size
       int L = (int)r.range(1, std::max(1, planned));
       std::vector<SCol> cols;
@@ -685,19 +815,25 @@ struct Run {
         for (int u : a) {
           size_t nz = 0;
           for (auto& f : U.cells[u].bd) if (f.second % p != 0) ++nz;
-          if (U.cells[u].dim == (nz == 0 ? 0 : (int)nz - 1)) ok.push_back(u);
+          if (U.cells[u].dim + dim_shift == (nz == 0 ? 0 : (int)nz - 1)) ok.push_back(u);
         }
         if (ok.empty()) break;
         MC mc = make_cell(ok[r.below(ok.size())], ids);
-        cols.push_back(mc.bd);
+        cols.push_back(mc.in);
         lg += "\n    " + describe(mc);
         model_push(mc);
       }
       c.log("construct Matrix(columns[" + std::to_string(cols.size()) + "], p=" + std::to_string(p) + ")" + lg);
       c.count("ctor.batch");
       c.count("ctor.batch.columns", cols.size());
+      if (cols.empty()) c.count("ctor.batch.zero_columns");
       last_op = "batch_ctor";
       io.construct_batch(cols, (unsigned)p);
+      if (id_style == 5) {
+        // the batch is the implicit prefix: explicit identifiers with gaps from here on
+        explicit_now = true;
+        c.count("ids.batch_then_explicit");
+      }
     } else if (k < 5) {
       c.log("construct Matrix() then set_characteristic(" + std::to_string(p) + ")");
       c.count("ctor.default");
@@ -722,39 +858,86 @@ struct Run {
     c.count(cfg + ".cases");
     c.count("kind." + U.kind);
     c.count("p." + std::to_string(p));
-    c.count(std::string("ids.") + (id_style == 0 ? "implicit" : id_style == 1 ? "explicit_consecutive" : "gaps"));
+    c.count(std::string("ids.") + (id_style == 0 ? "implicit" : id_style == 1 ? "explicit_consecutive" : id_style_name()));
+    if (unreduced) c.count("coefs.unreduced_case");
+    if (spread) c.count("coefs.spread_case");
+    if (p > 65536) c.count("prime.above_65536.case");
+    if (mode == MODE_BIG_PRIMES) c.count("prime.big_config.case");
+    if (obs_every > 1) c.count("obs.sparse_case");
+    if (emptied) c.count("empty.case");
+    if (emptied && best_cells_after_emptied >= 4) c.count("empty.regrown_case");
+    if (dim_shift != 0) c.count("dims.shifted_case");
+    if (!T.pairings) c.count("pairings.off.case");
+    if (used_other_range) c.count("range.other_case");
     if (best_finite >= 3 && best_cells >= 8 && any_addition) c.nontrivial(vh::hash_str(vh::G().history));
     c.sample("{\"config\":\"" + cfg + "\",\"universe\":\"" + U.kind + "\",\"p\":" + std::to_string(p) + ",\"max_cells\":" + std::to_string(best_cells) +
              ",\"max_finite_bars\":" + std::to_string(best_finite) + ",\"history\":\"" + vh::jesc(vh::G().history.substr(0, 900)) + "\"}");
   }
 
+  // RU / chain: one step of the history is done; observe now or (sparse observation) only every obs_every-th step
+  bool step_done() {
+    if (++since_obs >= obs_every) { since_obs = 0; return observe_full(); }
+    c.count("obs.skipped_step");
+    return true;
+  }
+
   void run() {
     static const long primes[7] = {3, 3, 5, 7, 11, 2, 13};
-    p = Z2 ? 2 : primes[r.below(7)];
+    if (mode == MODE_BIG_PRIMES) p = p_forced;
+    else p = Z2 ? 2 : primes[r.below(7)];
     const size_t max_cells = c.thorough && r.chance(1, 4) ? 60 : 40;
     U = gen_universe(r, max_cells);
     present.assign(U.cells.size(), 0);
     if (!universe_is_chain_complex(U)) { c.violation("harness.generator", "dd_nonzero", "generated universe is no chain complex: " + U.kind); return; }
-    id_style = (int)r.below(3);
+    {
+      static const int styles[8] = {0, 0, 1, 2, 2, 3, 4, 5};
+      id_style = styles[r.below(8)];
+    }
     // Chain matrix with vine updates: remove_last does not give the column index back, so the identifier an id-less
     // insert_boundary assigns after a removal is the number of insertions ever made, not the position.  The documentation is
     // ambiguous there ("n-th insertion" vs "relative position in the filtration"), so implicit identifiers are not combined with
     // removals for those instantiations (vine swaps are C06's subject).
-    if (FL == F_CHAIN && T.vine && RC && id_style == 0) { id_style = 1; c.count("ids.implicit_avoided_for_chain_with_vine"); }
+    if (FL == F_CHAIN && T.vine && RC && (id_style == 0 || id_style == 5)) { id_style = id_style == 0 ? 1 : 2; c.count("ids.implicit_avoided_for_chain_with_vine"); }
     const int planned = (int)std::min<size_t>(U.cells.size(), (size_t)r.range(6, 40));
+    switch_at = (int)r.range(1, std::max(1, planned / 2));
+    first_id = (unsigned)(r.chance(1, 2) ? r.range(100, 2000) : r.range(2000, 20000));
+    // the further input classes of the case
+    unreduced = !Z2 && r.chance(1, 2);
+    // (big primes: half of the cases keep the +-1 coefficients of the universe - the inverse of p - 1 and the product
+    //  (p - 1)(p - 1) are what a 32-bit evaluation gets wrong first above 2^16 - the other half spreads them over Z_p)
+    spread = !Z2 && p > 2 && r.chance(1, mode == MODE_BIG_PRIMES ? 2 : 4);
+    if (spread) {
+      lam.resize(U.cells.size());
+      lam_inv.resize(U.cells.size());
+      for (size_t u = 0; u < U.cells.size(); ++u) {
+        lam[u] = r.chance(1, 4) ? (r.chance(1, 2) ? 1 : p - 1) : (long)r.range(1, p - 1);
+        lam_inv[u] = inv_mod(lam[u], p);
+      }
+    }
+    if (FL != F_BND && r.chance(1, 2)) obs_every = (int)r.range(2, 8);
+    allow_empty = RC && r.chance(1, 3);
+    if (r.chance(1, 6)) { static const int sh[6] = {1, 1, 2, 3, 7, 100}; dim_shift = sh[r.below(6)]; }
     c.log("universe " + U.kind + " cells=" + std::to_string(U.cells.size()) + " p=" + std::to_string(p) + " planned=" + std::to_string(planned) +
-          " ids=" + (id_style == 0 ? "implicit" : id_style == 1 ? "explicit" : "gaps"));
+          " ids=" + (id_style == 0 ? "implicit" : id_style == 1 ? "explicit" : id_style_name()) +
+          (unreduced ? " coefficients=unreduced" : "") + (spread ? " cells_rescaled" : "") +
+          (obs_every > 1 ? " observe_every=" + std::to_string(obs_every) : std::string()) + (allow_empty ? " may_empty" : "") +
+          (dim_shift ? " dim_shift=" + std::to_string(dim_shift) : std::string()));
+    const size_t floor_n = allow_empty ? 0 : 1;  // remove_last is asked while more than this many cells are left
     try {
       construct(planned);
       if (FL == F_BND) {
         // phase 1: build, with removals / re-insertions, the stored columns being the raw boundaries
         if (!observe_bnd_raw()) return;
+        // now and then nothing is ever inserted: the barcode of a never-filled matrix
+        const bool never_filled = r.chance(1, 30);
         int steps = 0;
-        while ((int)cells.size() < planned && steps < 3 * planned + 10) {
+        while (!never_filled && (int)cells.size() < planned && steps < 3 * planned + 10) {
           ++steps;
-          if (RC && !cells.empty() && r.chance(1, 7)) {
-            int k = (int)r.range(1, 3);
+          if (RC && r.chance(1, 7) && (!cells.empty() || allow_empty)) {
+            if (cells.empty()) { if (!remove_last_on_empty_and_probe() || !observe_bnd_raw()) return; continue; }
+            int k = allow_empty && r.chance(1, 3) ? (int)cells.size() : (int)r.range(1, 3);
             for (int i = 0; i < k && !cells.empty(); ++i) { op_remove_last(); if (!observe_bnd_raw()) return; }
+            if (cells.empty() && allow_empty && r.chance(1, 2)) { if (!remove_last_on_empty_and_probe() || !observe_bnd_raw()) return; }
             continue;
           }
           if (!op_insert()) break;
@@ -762,19 +945,23 @@ struct Run {
         }
         // phase 2: the barcode, then remove_last x k
         c.log("get_current_barcode (first call: reduces the matrix)");
+        if (cells.empty()) c.count(emptied ? "bnd.first_barcode_of_emptied" : "bnd.first_barcode_of_never_filled");
         last_op = "first_barcode";
         reduced = true;
         if (!observe_full()) return;
-        if (RC) {
-          int k = r.chance(1, 5) ? (int)cells.size() - 1 : (int)r.range(0, std::min<long>(8, (long)cells.size() - 1));
-          for (int i = 0; i < k && cells.size() > 1; ++i) {
+        if (RC && !cells.empty()) {
+          const long n = (long)cells.size();
+          int k = r.chance(1, 5) ? (int)(n - (long)floor_n) : (int)r.range(0, std::min<long>(8, n - 1));
+          for (int i = 0; i < k && cells.size() > floor_n; ++i) {
             op_remove_last();
             c.count("op.remove_last.after_barcode");
             if (!observe_full()) return;
           }
         }
+        if (RC && allow_empty && cells.empty() && r.chance(1, 2)) { if (!remove_last_on_empty_and_probe() || !observe_full()) return; }
       } else {
         if (!observe_full()) return;
+        if (allow_empty && cells.empty() && r.chance(1, 6)) { if (!remove_last_on_empty_and_probe() || !observe_full()) return; }
         int steps = 0;
         const int max_steps = 2 * planned + 12;
         bool shrinking = false;
@@ -782,23 +969,36 @@ struct Run {
         while (steps < max_steps) {
           ++steps;
           if (RC && shrinking) {
-            if (shrink_left == 0 || cells.size() <= 1) { shrinking = false; continue; }
+            if (shrink_left == 0) { shrinking = false; continue; }
+            if (cells.size() <= floor_n) {
+              // (allow_empty) the matrix is empty and the burst is not over: one remove_last on the empty matrix
+              if (cells.empty()) { if (!remove_last_on_empty_and_probe() || !step_done()) return; }
+              shrinking = false;
+              continue;
+            }
             --shrink_left;
             op_remove_last();
-            if (!observe_full()) return;
+            if (!step_done()) return;
             continue;
           }
-          if (RC && cells.size() > 1 && r.chance(1, 8)) { shrinking = true; shrink_left = (int)r.range(1, r.chance(1, 4) ? 8 : 3); continue; }
+          if (RC && cells.size() > floor_n && r.chance(1, 8)) {
+            shrinking = true;
+            // (allow_empty) one burst in three goes down to the empty matrix, half of those try one more remove_last there
+            if (allow_empty && r.chance(1, 3)) shrink_left = (int)cells.size() + (r.chance(1, 2) ? 1 : 0);
+            else shrink_left = (int)r.range(1, r.chance(1, 4) ? 8 : 3);
+            continue;
+          }
           if ((int)cells.size() >= planned) {
-            if (RC && r.chance(2, 3) && cells.size() > 1) { shrinking = true; shrink_left = (int)r.range(1, 6); continue; }
+            if (RC && r.chance(2, 3) && cells.size() > floor_n) { shrinking = true; shrink_left = (int)r.range(1, 6); continue; }
             break;
           }
           if (!op_insert()) {
-            if (RC && cells.size() > 1 && steps < max_steps - 4) { shrinking = true; shrink_left = (int)r.range(1, 4); continue; }
+            if (RC && cells.size() > floor_n && steps < max_steps - 4) { shrinking = true; shrink_left = (int)r.range(1, 4); continue; }
             break;
           }
-          if (!observe_full()) return;
+          if (!step_done()) return;
         }
+        if (since_obs > 0) { c.count("obs.final_after_unobserved"); if (!observe_full()) return; }
       }
     } catch (const std::exception& e) {
       std::string what = e.what();
